@@ -927,10 +927,23 @@ def check_comb_gen(r, rule):
     outer = s.loops.get(ret[1])
     name = ret[2]
     adds = [e for e in s.events_of("mutate") if e["name"] == name and e["method"] == "add"]
-    if outer is None or len(adds) != 1 or len(adds[0].ctx.loops) != 2 or adds[0].ctx.loops[0] != outer.lid:
+    upds = [e for e in s.events_of("mutate") if e["name"] == name and e["method"] == "update"]
+
+    class _Sub:      # the inner "loop" of  variants.update(f(c) for c in combinations(..))  : a comprehension generator
+        pass
+    if outer is not None and not adds and len(upds) == 1 and len(upds[0].ctx.loops) == 1 and upds[0].ctx.loops[0] == outer.lid and len(upds[0]["args"]) == 1 \
+            and head(strip(upds[0]["args"][0])) == "comp" and len(strip(upds[0]["args"][0])[3]) == 1:
+        e = upds[0]
+        cp = strip(e["args"][0])
+        subsets = _Sub()
+        subsets.iterable, subsets.elem, subsets.node = cp[3][0][0][3], cp[3][0][0], e.node
+        variant_term, comp_conds = cp[2], cp[3][0][1]
+    elif outer is None or len(adds) != 1 or len(adds[0].ctx.loops) != 2 or adds[0].ctx.loops[0] != outer.lid:
         return undecided(f"expected one add() inside a 2-deep loop nest, found {len(adds)}")
-    e = adds[0]
-    subsets = s.loops[e.ctx.loops[1]]
+    else:
+        e = adds[0]
+        subsets = s.loops[e.ctx.loops[1]]
+        variant_term, comp_conds = e["args"][0], ()
     si = strip(subsets.iterable)
     ar = _affine_range(nn, q, outer.iterable, 1, "K")
     clipped = list(getattr(_affine_range, "clipped", []))
@@ -1010,9 +1023,10 @@ def check_comb_gen(r, rule):
                  expected="combinations(seq, len(seq) - edit)", found=show(si, 80), key="comb subsets")
     asserted = {strip_all(a["cond"]) for a in s.events_of("assert")}
     extra_g = [(g, pol) for g, pol in e.ctx.guards if (g, pol) not in tuple(outer.ctx.guards) and not (pol and strip_all(g) in asserted)]
+    extra_g = extra_g + [(c_, True) for c_ in comp_conds]
     r.rep.ob(rule, q, not extra_g, "no variant is skipped", wh(r, q, e.node), expected="unguarded add", found=f"{len(extra_g)} guard(s)", key="comb unguarded")
     # the variant string
-    v = strip(e["args"][0])
+    v = strip(variant_term)
     if idiom == "positions":
         okv, why = _is_deletion_variant(s, v, seq, subsets.elem)
         if okv is None:
@@ -1045,6 +1059,23 @@ def _is_deletion_variant(s, v, seq, indexes):
                 coll = strip(coll[2][0])       # membership in set(indexes) is membership in indexes
             if head(c) == "cmp" and c[1] == "notin" and strip(c[2]) == ("item", elem, 0) and coll == strip(indexes):
                 return True, "comprehension idiom"
+        # idiom 3: ''.join(seq[a:b] for a, b in zip([0] + [p + 1 for p in indexes], list(indexes) + [len(seq)]))  - the pieces between deleted positions
+        if is_call(it, "builtins.zip") and len(it[2]) == 2 and not conds and strip_all(arg[2]) == strip_all(("sub", seq, ("slice", ("item", elem, 0), ("item", elem, 1), NONE))):
+            starts, stops = strip_all(it[2][0]), strip_all(it[2][1])
+            idx = strip_all(indexes)
+
+            def plus_one_list(t):
+                return head(t) == "comp" and t[1] == "list" and len(t[3]) == 1 and not t[3][0][1] and strip_all(t[3][0][0][3]) == idx \
+                    and strip_all(t[2]) in (("bin", "+", strip_all(t[3][0][0]), const(1)), ("bin", "+", const(1), strip_all(t[3][0][0])))
+            ok_starts = head(starts) == "bin" and starts[1] == "+" and strip(starts[2]) == ("list", (const(0),)) and plus_one_list(strip(starts[3]))
+            st2 = strip(stops[2]) if head(stops) == "bin" and stops[1] == "+" else None
+            if st2 is not None and is_call(st2, "builtins.list") and len(st2[2]) == 1:
+                st2 = strip(st2[2][0])
+            tail_ = strip(stops[3]) if head(stops) == "bin" and stops[1] == "+" else None
+            ok_stops = st2 == idx and tail_ == ("list", (strip_all(lenseq),))
+            if ok_starts and ok_stops:
+                return True, "starts / stops idiom"
+            return False, f"pieces seq[a:b] over {show(it, 80)}: expected a from [0] + [p + 1 for p in positions], b from positions + [len(seq)]"
         return None, f"comprehension outside idiom: {show(arg, 80)}"
     # idiom 1: gap-building loop
     if not (head(arg) == "mut" and arg[1] == "append" and len(arg[3]) == 1):
